@@ -15,16 +15,20 @@ CLAIMS = {
     "C01": ("every explicit panic, every implicit run-time panic site (nil deref, index/slice bounds, nil map write, div by zero, failed type assertion) and every "
             "loop/recursion budget reachable from autog.Layout is a solver query per cube; unsat = unreachable for all sizes/spacings/RNG picks within the bound", "5 C01"),
     "C02": ("output node/edge multisets and sizes compared with the input for all symbolic sizes and the four size-option modes", "5 C02"),
-    "C03": ("band separation, downward flow and ArrowHeadStart <=> upward asserted on the returned coordinates for all symbolic sizes/spacings", "5 C03"),
-    "C04": ("pairwise rectangle disjointness and same-band spacing asserted on the returned coordinates for all symbolic sizes/spacings", "5 C04"),
+    "C03": ("band separation, downward flow and ArrowHeadStart <=> upward asserted on the returned coordinates for all symbolic sizes/spacings; plus in-package network-simplex "
+            "obligations from symbolic pre-states (pivot lemma, normalize+vbalance lemma, whole run with symbolic minimum lengths): every edge keeps its minimum length", "4 C03"),
+    "C04": ("pairwise rectangle disjointness and same-band spacing asserted on the returned coordinates for all symbolic sizes/spacings; plus the positioners on arbitrary proper "
+            "layered graphs (kernel, symbolic sizes)", "4 C04"),
     "C05": ("first/last route point vs. bottom-/top-centre of the endpoint rectangles and arrowhead end vs. ToID for all symbolic sizes/spacings", "5 C05"),
     "C06": ("per-style route shape assertions on the returned points for all symbolic sizes/spacings", "5 C06"),
     "C07": ("self-composition: two calls with independent symbolic map-iteration orders must give identical results; inputs compared before/after", "5 C07"),
     "C08": ("relational: the solver chooses an injective renaming from an adversarial alphabet; both runs (incl. their panic behaviour) must agree", "5 C08"),
     "C09": ("relational: Layout(union) vs Layout(component) for every component, translation and side-by-side extents asserted symbolically", "5 C09"),
-    "C10": ("the solver searches for a cheaper feasible layering (alt[i] symbolic) of the drawn orientation; unsat = optimal; contiguity asserted", "5 C10"),
+    "C10": ("the solver searches for a cheaper feasible layering (alt[i] symbolic) of the drawn orientation; unsat = optimal; contiguity asserted; plus in-package pivot lemma "
+            "(arbitrary feasible tight spanning tree, symbolic layering / tree / lengths / weights) and whole network simplex with symbolic minimum lengths", "4 C10"),
     "C11": ("bands compared with an independent longest-path computation on the drawn orientation", "5 C11"),
-    "C12": ("monitor value vs crossings recounted from the returned route points for all symbolic widths/spacings", "5 C12"),
+    "C12": ("monitor value vs crossings recounted from the returned route points for all symbolic widths/spacings (incl. 70-layer graphs); plus the real crossing counter vs the naive "
+            "count with solver-chosen in-layer permutations and a symbolic layer index 0..100", "4 C12"),
     "C13": ("crossings recounted from the returned route points of every rooted tree in every edge order, symbolic widths/spacings", "5 C13"),
     "C14": ("phase1.Process driven in-package: result acyclic, acyclic input => nothing reversed, DFS reversed set irredundant (closure spec); edge endpoints "
             "symbolic at the smallest bound, one symbolic tail edge / cubes beyond", "5 C14"),
@@ -57,7 +61,7 @@ for p in props:
         "level_claimed": {"category": "model_checking",
                           "text": "Bounded symbolic model checking of the real code: " + text + ". Within the stated bounds an unsat answer covers every value of the symbolic "
                                   "dimensions; every sat answer is replayed against the real build before it is reported.",
-                          "design_ref": "DESIGN.md section " + ref},
+                          "design_ref": "DESIGN.md section " + ref.replace("5 C", "4 C")},
         "level_note": NOTE,
         "technique": TECH,
     })
